@@ -130,13 +130,13 @@ def main(chk: core.Check) -> int:
     thorough = chk.tier == "thorough"
     chk.coverage["rule"] = "evaluations = table elements pushed through the real accessors and judged against the npz read directly (exact arithmetic), z sweep, history steps; distinct = check classes"
     chk.assumptions += ["numba freezing the arrays into compiled kernels is C17's subject; here kernels are compiled in a child process with a private cache directory",
-                        "the centroid statement is decided by exhaustive exact-rational evaluation in the harness (a test over the complete finite table, not a Lean theorem: kernel evaluation of it was measured at > 15 min)",
+                        "the centroid statement is a Lean theorem (Props/C09b.lean: fixed-point kernel evaluation over all 6240 crystals x 3 axes + a soundness proof over Q); the harness repeats it in exact rational arithmetic on the values the real lookups return",
                         "numba table lookups are modelled only for in-range indices"]
     g = gen.gen_geom()
     if not g["ok"]:
         chk.obligation_broken("translator", "regenerate geometry models", g["error"])
     else:
-        chk.prove()
+        chk.prove(modules=["C09", "C09b"])
         try:
             diffs = c08.correspond(chk, g["info"], thorough)
             chk.coverage["traces_validated_against_impl"] = chk.evals
